@@ -1092,21 +1092,58 @@ func ruleC09_2(c *Ctx) {
 		return
 	}
 	fn := fname(f)
-	run := firstCall(f, "in_toto.InTotoRun")
-	if run == nil {
+	// the InTotoRun call: in RunInspections or in an unexported helper below it (per-inspection body extracted)
+	rs := c.stage(f, "in_toto.InTotoRun")
+	if rs == nil {
 		c.bad(R, fn, "InTotoRun", f.Pos(), "inspection commands are not executed through InTotoRun")
 		return
 	}
-	args := run.Common().Args
-	c.check(org(args[0]) == "p0.Inspect[*].SupplyChainItem.Name", R, fn, "link name = inspection name", run.Pos(), org(args[0]), "link is named "+org(args[0]))
-	c.check(org(args[4]) == "p0.Inspect[*].Run", R, fn, "command = inspection.Run", run.Pos(), org(args[4]), "executed command is "+org(args[4]))
-	c.check(args[2] == args[3], R, fn, "materials and products are recorded over the same paths", run.Pos(), "same SSA value", "material paths and product paths differ")
-	c.check(org(args[1]) == "p1", R, fn, "run directory parameter passed on", run.Pos(), "p1", "run dir is "+org(args[1]))
-	okErr := false
-	if e := errResult(run); e != nil {
-		for _, br := range errBranches(e) {
-			okErr = okErr || c.failing(br.NonNil)
+	run := rs.call
+	inner := f
+	if g := rs.inner(); g != nil {
+		inner = g
+	}
+	// access paths of the inner frame seen from RunInspections
+	subst := map[*ssa.Parameter]string{}
+	for k := len(rs.path) - 1; k >= 0; k-- {
+		vf := rs.path[k]
+		for i, prm := range vf.g.Params {
+			if i < len(vf.via.Common().Args) {
+				subst[prm] = orgSubst(vf.via.Common().Args[i], subst)
+			}
 		}
+	}
+	// parameters of outer helpers are substituted after inner ones were rendered; render again outermost-first
+	for k := 0; k < len(rs.path); k++ {
+		vf := rs.path[k]
+		for i, prm := range vf.g.Params {
+			if i < len(vf.via.Common().Args) {
+				subst[prm] = orgSubst(vf.via.Common().Args[i], subst)
+			}
+		}
+	}
+	o := func(v ssa.Value) string { return orgSubst(v, subst) }
+	args := run.Common().Args
+	c.check(o(args[0]) == "p0.Inspect[*].SupplyChainItem.Name", R, fn, "link name = inspection name", run.Pos(), o(args[0]), "link is named "+o(args[0]))
+	c.check(o(args[4]) == "p0.Inspect[*].Run", R, fn, "command = inspection.Run", run.Pos(), o(args[4]), "executed command is "+o(args[4]))
+	c.check(args[2] == args[3], R, fn, "materials and products are recorded over the same paths", run.Pos(), "same SSA value", "material paths and product paths differ")
+	c.check(o(args[1]) == "p1", R, fn, "run directory parameter passed on", run.Pos(), "p1", "run dir is "+o(args[1]))
+	// a failure fails, in every frame on the way up
+	failsUp := func(call ssa.CallInstruction) bool {
+		e := errResult(call)
+		if e == nil {
+			return false
+		}
+		for _, br := range errBranches(e) {
+			if c.failing(br.NonNil) {
+				return true
+			}
+		}
+		return false
+	}
+	okErr := failsUp(run)
+	for _, vf := range rs.path {
+		okErr = okErr && failsUp(vf.via)
 	}
 	c.check(okErr, R, fn, "command start failure fails", run.Pos(), "non-nil side is a failing continuation", "an inspection that cannot be run does not fail verification")
 	// whole-slice index loop over p0.Inspect in order: the element index is the loop's induction variable
@@ -1123,10 +1160,10 @@ func ruleC09_2(c *Ctx) {
 		}
 	}
 	c.check(okLoop, R, fn, "range over layout.Inspect in slice order", f.Pos(), "range-index loop", "inspections are not iterated with a plain range over layout.Inspect")
-	// return-value check
+	// return-value check (in the frame of the InTotoRun call)
 	okRV := false
 	var cmp *ssa.BinOp
-	for _, b := range f.Blocks {
+	for _, b := range inner.Blocks {
 		for _, in := range b.Instrs {
 			bo, ok := in.(*ssa.BinOp)
 			if !ok || (bo.Op != token.NEQ && bo.Op != token.EQL) {
@@ -1151,6 +1188,9 @@ func ruleC09_2(c *Ctx) {
 				okRV = true
 			}
 		}
+		for _, vf := range rs.path {
+			okRV = okRV && failsUp(vf.via)
+		}
 	}
 	pos := f.Pos()
 	if cmp != nil {
@@ -1162,8 +1202,8 @@ func ruleC09_2(c *Ctx) {
 	for _, b := range f.Blocks {
 		for _, in := range b.Instrs {
 			if mu, ok := in.(*ssa.MapUpdate); ok {
-				pc, idx := producer(mu.Value, mu)
-				if pc == run && idx == 0 && org(mu.Key) == "p0.Inspect[*].SupplyChainItem.Name" {
+				n, idx := c.deepProducer(mu.Value, mu)
+				if n == "in_toto.InTotoRun" && idx == 0 && org(mu.Key) == "p0.Inspect[*].SupplyChainItem.Name" {
 					if _, isMk := mu.Map.(*ssa.MakeMap); isMk {
 						okStore = true
 						for _, r := range c.nilErrReturns(f) {
@@ -1204,14 +1244,22 @@ func ruleC09_3(c *Ctx) {
 	c.check(wtype != "", R, fname(rc), "writes by-product \"return-value\"", wpos, "dynamic type "+wtype, "RunCommand does not store the exit status under \"return-value\"")
 	rtype := ""
 	var rpos token.Pos
-	for _, b := range ri.Blocks {
-		for _, in := range b.Instrs {
-			if bo, ok := in.(*ssa.BinOp); ok && (bo.Op == token.NEQ || bo.Op == token.EQL) {
-				for _, side := range [][2]ssa.Value{{bo.X, bo.Y}, {bo.Y, bo.X}} {
-					if strings.HasSuffix(org(side[0]), `.ByProducts{const("return-value")}`) {
-						if mi, ok := side[1].(*ssa.MakeInterface); ok {
-							rtype = typeStr(mi.X.Type())
-							rpos = bo.Pos()
+	readers := []*ssa.Function{ri}
+	for g := range c.ownedBy(ri) {
+		if g != ri {
+			readers = append(readers, g)
+		}
+	}
+	for _, rf := range readers {
+		for _, b := range rf.Blocks {
+			for _, in := range b.Instrs {
+				if bo, ok := in.(*ssa.BinOp); ok && (bo.Op == token.NEQ || bo.Op == token.EQL) {
+					for _, side := range [][2]ssa.Value{{bo.X, bo.Y}, {bo.Y, bo.X}} {
+						if strings.HasSuffix(org(side[0]), `.ByProducts{const("return-value")}`) {
+							if mi, ok := side[1].(*ssa.MakeInterface); ok {
+								rtype = typeStr(mi.X.Type())
+								rpos = bo.Pos()
+							}
 						}
 					}
 				}
@@ -1307,9 +1355,22 @@ func ruleC09_5(c *Ctx) {
 	execUsers := callersOf(func(n string) bool {
 		return n == "os/exec.Command" || n == "os/exec.CommandContext" || strings.HasPrefix(n, "(*os/exec.Cmd).") || n == "os.StartProcess" || n == "syscall.Exec" || n == "syscall.ForkExec"
 	})
-	c.check(len(execUsers) == 1 && execUsers[0] == "in_toto.RunCommand", R, "in_toto", "os/exec is used only by RunCommand", 0, fmt.Sprint(execUsers), fmt.Sprintf("os/exec is used by %v", execUsers))
+	// a function "owns" the unexported helpers that only it (or helpers it owns) calls
+	within := func(users []string, owner string) bool {
+		own := c.ownedBy(c.lookup(owner))
+		if len(users) == 0 {
+			return false
+		}
+		for _, u := range users {
+			if f := c.lookup(u); f == nil || !own[f] {
+				return false
+			}
+		}
+		return true
+	}
+	c.check(within(execUsers, "in_toto.RunCommand"), R, "in_toto", "os/exec is used only by RunCommand", 0, fmt.Sprint(execUsers), fmt.Sprintf("os/exec is used by %v", execUsers))
 	rcUsers := callersOf(func(n string) bool { return n == "in_toto.RunCommand" })
-	c.check(len(rcUsers) == 1 && rcUsers[0] == "in_toto.InTotoRun", R, "in_toto", "RunCommand is called only by InTotoRun", 0, fmt.Sprint(rcUsers), fmt.Sprintf("RunCommand is called by %v", rcUsers))
+	c.check(within(rcUsers, "in_toto.InTotoRun"), R, "in_toto", "RunCommand is called only by InTotoRun", 0, fmt.Sprint(rcUsers), fmt.Sprintf("RunCommand is called by %v", rcUsers))
 	// from the entry points, InTotoRun is reached only through RunInspections
 	var roots []*ssa.Function
 	for _, e := range c.entryPoints() {
@@ -1328,7 +1389,42 @@ func ruleC09_5(c *Ctx) {
 			}
 		}
 	}
-	c.check(len(runUsers) == 1 && runUsers[0] == "in_toto.RunInspections", R, "in_toto", "from verification, InTotoRun is called only by RunInspections", 0, fmt.Sprint(runUsers), fmt.Sprintf("InTotoRun is called from %v on the verification paths", runUsers))
+	c.check(within(runUsers, "in_toto.RunInspections"), R, "in_toto", "from verification, InTotoRun is called only by RunInspections", 0, fmt.Sprint(runUsers), fmt.Sprintf("InTotoRun is called from %v on the verification paths", runUsers))
+}
+
+// ownedBy: root and the unexported functions of its package all of whose callers are root or functions owned by root.
+func (p *Prog) ownedBy(root *ssa.Function) map[*ssa.Function]bool {
+	own := map[*ssa.Function]bool{}
+	if root == nil {
+		return own
+	}
+	own[root] = true
+	for changed := true; changed; {
+		changed = false
+		for f := range own {
+			for _, call := range allCalls(f) {
+				g := call.Common().StaticCallee()
+				if g == nil || own[g] || g.Blocks == nil || g.Pkg != root.Pkg || (g.Object() != nil && g.Object().Exported()) {
+					continue
+				}
+				node := p.CG.Nodes[g]
+				if node == nil || len(node.In) == 0 {
+					continue
+				}
+				all := true
+				for _, in := range node.In {
+					if !own[in.Caller.Func] {
+						all = false
+					}
+				}
+				if all {
+					own[g] = true
+					changed = true
+				}
+			}
+		}
+	}
+	return own
 }
 
 // optionWiring checks that the entry point's options reach the stages that take them, also through a helper:
